@@ -116,6 +116,33 @@ ANewFactor(cls, d, R, s) ==
                 [] cls = "Const"  -> [cls |-> cls, ln_beta |-> qb, num_dim |-> d]
     IN Emit(Append(heap, o), Step("NewFactor", a, NoObj, NextId, ExpectObj(o), 0, NoObj, NoObj))
 
+\* constructors from explicitly given exact records (used by the trace specification, where the arguments come from
+\* a recorded execution instead of a menu)
+ANewMeasureExplicit(cls, qL, qn, qb) ==
+    LET R == Len(qL)
+        o == MkObj(cls, MkSeq(R, LAMBDA i : QM(qL[i])), MkSeq(R, LAMBDA i : QV(qn[i])), MkSeq(R, LAMBDA i : LNQ(QS(qb[i]))))
+    IN Emit(Append(heap, o),
+            Step("NewMeasure", [cls |-> cls, Lambda |-> qL, nu |-> qn, ln_beta |-> qb], NoObj, NextId, ExpectObj(o), 0, NoObj, NoObj))
+
+ANewFactorExplicit(cls, qL, qv, qg, qn, qb, d) ==
+    LET R == Len(qb)
+        nu == MkSeq(R, LAMBDA i : QV(qn[i]))
+        lb == MkSeq(R, LAMBDA i : LNQ(QS(qb[i])))
+        o  == CASE cls = "Factor" -> NewFactor(MkSeq(R, LAMBDA i : QM(qL[i])), nu, lb)
+                [] cls = "Rank1"  -> NewRank1(MkSeq(R, LAMBDA i : QV(qv[i])), MkSeq(R, LAMBDA i : QS(qg[i])), nu, lb)
+                [] cls = "Linear" -> NewLinear(nu, lb)
+                [] cls = "Const"  -> NewConst(lb, d)
+        a  == CASE cls = "Factor" -> [cls |-> cls, Lambda |-> qL, nu |-> qn, ln_beta |-> qb]
+                [] cls = "Rank1"  -> [cls |-> cls, v |-> qv, g |-> qg, nu |-> qn, ln_beta |-> qb]
+                [] cls = "Linear" -> [cls |-> cls, nu |-> qn, ln_beta |-> qb]
+                [] cls = "Const"  -> [cls |-> cls, ln_beta |-> qb, num_dim |-> d]
+    IN Emit(Append(heap, o), Step("NewFactor", a, NoObj, NextId, ExpectObj(o), 0, NoObj, NoObj))
+
+AUpdateSigmaExplicit(i, qS) ==
+    LET c == heap[i] c1 == UpdateSigma(c, MkSeq(Len(qS), LAMBDA k : QM(qS[k]))) IN
+    /\ IsCond(c) /\ Len(qS) = CR(c)
+    /\ Emit(Put(i, c1), Step("UpdateSigma", [i |-> i, Sigma |-> qS], NoObj, 0, NoObj, i, ExpectObj(c1), NoObj))
+
 \* ------------------------------------------------------------------------
 \* Read-only-looking queries that fill caches in place
 \* ------------------------------------------------------------------------
